@@ -665,7 +665,7 @@ def group_excl(R, model_names):
                                         {"kind": "excl-formula", "present": list(sub), "model": a, "observed": str(want)}))
             R.ask(("excl %s" % " ".join(cps(n) for n in sub)).rstrip(), cb)
         close_socks()
-    if sorted(model_names) != sorted(names):
+    if R.runner is not None and sorted(model_names) != sorted(names):
         R.model_bad.append(("excl-names", "the exclusion chain mentions %s, the specification groups are %s" % (sorted(model_names), sorted(names)),
                             {"kind": "excl-names", "model": sorted(model_names), "observed": sorted(names)}))
     return subsets_seen
@@ -938,6 +938,532 @@ def group_cli_random(R, truthy):
     R.flush()
 
 
+# -- the real runner: waitress.runner.run with _serve replaced (as tests/test_runner.py does) ----
+
+APP_ERRORS = ("Specify an application", "Provide only one WSGI app", "Cannot import WSGI application")
+
+
+def real_run(A, argv):
+    """runner.run(['waitress-serve'] + argv, _serve=shim); the shim does what serve() does first:
+    Adjustments(**kw).  -> (outcome shaped like real_cli's, {'kw': what serve() got, 'app': ...} | None)"""
+    import io
+    import sys
+    import waitress.runner as RUN
+    got, helps = {}, []
+
+    def shim(app, **kw):
+        got["app"], got["kw"] = app, dict(kw)
+
+    old_help, old_path, old_err, old_level = RUN.show_help, list(sys.path), sys.stderr, RUN.logger.level
+    RUN.show_help = lambda stream, name, error=None: helps.append(error)
+    sys.stderr = io.StringIO()
+    try:
+        try:
+            rc = RUN.run(argv=["waitress-serve"] + list(argv), _serve=shim)
+        except Exception as e:                       # run() lets nothing else out on the unchanged tree
+            return ("EXN", "run raised " + exn_name(e)), None
+    finally:
+        RUN.show_help, sys.stderr = old_help, old_err
+        sys.path[:] = old_path
+        RUN.logger.setLevel(old_level)
+    if "kw" in got:
+        if rc != 0:
+            return ("EXN", "run returned %r after serve()" % (rc,)), got
+        try:
+            adj = A.Adjustments(**got["kw"])
+        except Exception as e:
+            return ("EXN", exn_name(e)), got
+        return ("OK", real_attrs(A, adj)), got
+    if rc == 0 and helps == [None]:
+        return ("HELP", None), None
+    if rc == 1 and len(helps) == 1 and isinstance(helps[0], str):
+        return ("EXN", "AppResolutionError" if helps[0].startswith(APP_ERRORS) else "GetoptError"), None
+    return ("EXN", "run returned %r, help calls %r" % (rc, helps)), None
+
+
+def parse_spec_answer(a):
+    """answer of the extracted specification (Spec/AdjustCli.v scan + keyword_form) ->
+    ('REFUSED', why) | ('HELP',) | ('APP', 'missing'|'extra') | ('KW', app, call, [(name, python value)], [[name, token]])"""
+    w = a.split(" ")
+    if w[0] == "REFUSED":
+        return ("REFUSED", w[1])
+    if w[0] != "OK":
+        return ("ERR", a)
+    if w[1] == "H1":
+        return ("HELP",)
+    if w[3] in ("Amissing", "Aextra"):
+        return ("APP", w[3][1:])
+    app = uncps(w[3][4:])
+    kw, toks = [], []
+    for t in w[5:]:
+        k, _, v = t.partition(":")
+        kw.append((uncps(k), dec_token(v)))
+        toks.append([uncps(k), v])
+    return ("KW", app, w[2] == "C1", kw, toks)
+
+
+def docs_header_kinds_independent():
+    """the double-quoted words between the `trusted_proxy_headers` term of docs/arguments.rst and the
+    next blank line (a different reading than the translator's entry splitter)"""
+    txt = open(os.path.join(vcommon.REPO, "docs", "arguments.rst"), encoding="utf-8").read()
+    m = re.search(r"(?ms)^trusted_proxy_headers[ \t]*\n(.*?)\n[ \t]*\n", txt)
+    return re.findall(r'"([^"\s]+)"', m.group(1)) if m else []
+
+
+class CliTable:
+    """the option table as the documentation describes it, from Adjustments._params alone"""
+
+    def __init__(self, A):
+        self.entries = [("help", "help", None), ("call", "call", None)]
+        for name, fn in A.Adjustments._params:
+            o = name.replace("_", "-")
+            if fn is A.asbool:
+                self.entries += [(o, "on", name), ("no-" + o, "off", name)]
+            else:
+                self.entries.append((o, "value", name))
+        self.entries.append(("app", "app", None))
+        self.by_name = {e[0]: e for e in self.entries}
+
+    def resolve(self, typed):
+        if typed in self.by_name:
+            return self.by_name[typed]
+        c = [e for e in self.entries if e[0].startswith(typed)]
+        return c[0] if len(c) == 1 else ("unknown" if not c else "ambiguous")
+
+    def spellings(self, name):
+        """(typed, resolution) for every prefix of name"""
+        return [(name[:i], self.resolve(name[:i])) for i in range(1, len(name) + 1)]
+
+
+CLI_GOOD = {"CInt": ["1", "80", " 7 ", "5_0", "65535"], "COctal": ["600", "0o644", "7"], "CStr": ["h", "a b", "::1", "*", "127.0.0.1", "/tmp/s"],
+            "CStrIfTruthy": ["1.2.3.4", "*", "x"], "CSlash": ["/a/", "b", "//c//"], "CSet": ["forwarded", "x-forwarded-for X-Forwarded-By", "X-FORWARDED-PROTO"],
+            "CList": ["a:1", "a:1 b:2", "*:80", "c:3\nd:4", " [::1]:9 ", "127.0.0.1:8080"], "CSockets": ["x"]}
+CLI_ODD = {"CInt": ["x", "-1", "1.0", "0x1", "+-2", "--3", "=4"], "COctal": ["9", "8", "0b1", "-x"], "CStr": ["-x", "--y", "a=b", "=", "é"],
+           "CStrIfTruthy": ["0", "-"], "CSlash": ["/", "-/-"], "CSet": ["nope", "forwarded x-forwarded-for", "x-real-ip", "x_forwarded_for"],
+           "CList": ["bad:port", "a:99999", "--port=1", "x:-1"], "CSockets": ["--", "-"]}
+CLI_BLANK = ["", "", " ", "\t", "  \n", "\xa0"]
+CLI_HOT = ["listen", "host", "port", "unix_socket", "sockets", "trusted_proxy", "trusted_proxy_count", "trusted_proxy_headers",
+           "ipv4", "ipv6", "ident", "url_prefix", "unix_socket_perms", "threads"]
+
+
+def gen_argv(rng, T, castname, stats):
+    """one command line.  -> (argv, intent) where intent = ('REFUSED', why) | ('HELP',) | ('APP', 'missing'|'extra')
+    | ('KW', app, call, [[name, token]]); built option by option, independently of getopt and of the Coq specification"""
+    names = [n for n in castname]
+    k = rng.choice([1, 1, 2, 2, 3, 3, 4, 5, 6, 7, 8])
+    argv, sets, refusal, helpf, callf, app = [], [], None, False, False, None
+    malformed = rng.random() < 0.12
+    bad_at = rng.randrange(k) if malformed else -1
+    used = []
+    for i in range(k):
+        r = rng.random()
+        if used and r < 0.22:
+            name = rng.choice(used)                       # a repeat
+            stats["repeat"] = stats.get("repeat", 0) + 1
+        elif r < 0.60:
+            name = rng.choice(CLI_HOT)
+        else:
+            name = rng.choice(names)
+        used.append(name)
+        c = castname[name]
+        opt = name.replace("_", "-")
+        if i == bad_at:
+            kind = rng.choice(["unknown", "ambiguous", "flag-value", "no-value-option", "short", "underscore", "missing"])
+            if kind == "unknown":
+                w, why = rng.choice(["--bogus", "--bogus=1", "--" + opt + "x", "--Host=h", "--no-help", "--no-app=x", "--no-call"]), "unknown"
+            elif kind == "ambiguous":
+                amb = [t for n2 in names for t, res in T.spellings(n2.replace("_", "-")) if res == "ambiguous"]
+                t = rng.choice(amb + ["", "no-", "n"])
+                w, why = "--" + t + (rng.choice(["", "=1"]) if t else "=1"), "ambiguous"
+            elif kind == "flag-value":
+                b = rng.choice([n2 for n2 in names if castname[n2] == "CBool"]).replace("_", "-")
+                w, why = "--" + rng.choice(["", "no-"]) + b + "=" + rng.choice(["1", "true", ""]), "unexpected-value"
+            elif kind == "no-value-option":
+                v = rng.choice([n2 for n2 in names if castname[n2] != "CBool"]).replace("_", "-")
+                w, why = "--no-" + v + rng.choice(["", "=5"]), "unknown"
+            elif kind == "short":
+                w, why = rng.choice(["-p", "-h", "-x=1", "-port=1", "--help"[1:]]), "short-option"
+            elif kind == "underscore" and "_" in name:
+                w, why = "--" + name + ("=1" if c != "CBool" else ""), "unknown"
+            else:
+                v = rng.choice([n2 for n2 in names if castname[n2] != "CBool"]).replace("_", "-")
+                argv.append("--" + v)                    # the value is missing: only at the very end
+                stats["bad:missing-value"] = stats.get("bad:missing-value", 0) + 1
+                return argv, ("REFUSED", "missing-value")
+            stats["bad:" + why] = stats.get("bad:" + why, 0) + 1
+            argv.append(w)
+            if refusal is None:
+                refusal = why
+            continue
+        r = rng.random()
+        if r < 0.05:
+            typed = rng.choice(["help", "he", "hel"])
+            argv.append("--" + typed)
+            helpf = True
+            continue
+        if r < 0.09:
+            argv.append("--" + rng.choice(["call", "cal", "ca"]))
+            callf = True
+            continue
+        if r < 0.14:
+            app = rng.choice(["m:app", "pkg.mod:obj.attr", "", "-x", "a b"])
+            typed = rng.choice(["app", "ap"])
+            argv += ["--%s=%s" % (typed, app)] if rng.random() < 0.5 else ["--" + typed, app]
+            continue
+        # a real adjustment
+        if c == "CBool":
+            val = rng.random() < 0.5
+            full = ("" if val else "no-") + opt
+        else:
+            val = None
+            full = opt
+        sp = [t for t, res in T.spellings(full) if not isinstance(res, str) and res[0] == full]
+        typed = full if rng.random() < 0.55 else rng.choice(sp)
+        if typed != full:
+            stats["abbrev"] = stats.get("abbrev", 0) + 1
+        if c == "CBool":
+            argv.append("--" + typed)
+            sets.append((name, "B1" if val else "B0"))
+            stats["flag"] = stats.get("flag", 0) + 1
+            continue
+        r = rng.random()
+        v = rng.choice(CLI_BLANK) if r < 0.15 else (rng.choice(CLI_ODD[c]) if r < 0.27 else rng.choice(CLI_GOOD[c]))
+        if v.strip() == "":
+            stats["blank-value"] = stats.get("blank-value", 0) + 1
+        if rng.random() < 0.5:
+            argv.append("--%s=%s" % (typed, v))
+            stats["eq-form"] = stats.get("eq-form", 0) + 1
+        else:
+            argv += ["--" + typed, v]
+            stats["space-form"] = stats.get("space-form", 0) + 1
+        sets.append((name, "S" + cps(v)))
+    # the tail: terminator, positional words
+    r = rng.random()
+    if r < 0.70:
+        tail = [rng.choice(["m:app", "pkg:obj", "a.b:c"])]
+    elif r < 0.78:
+        tail = ["--", rng.choice(["m:app", "--port=1", "-x", "--"])]
+    elif r < 0.84:
+        tail = []
+    elif r < 0.90:
+        tail = ["m:app", rng.choice(["extra", "--port=1", "--"])]
+    elif r < 0.94:
+        tail = ["-"]
+    else:
+        tail = ["--"]
+    argv += tail
+    pos = tail[1:] if tail[:1] == ["--"] else tail
+    if refusal is not None:
+        return argv, ("REFUSED", refusal)
+    if helpf:
+        return argv, ("HELP",)
+    if app is None and pos:
+        app, pos = pos[0], pos[1:]
+    if app is None:
+        return argv, ("APP", "missing")
+    if pos:
+        return argv, ("APP", "extra")
+    order, last, listen = [], {}, []
+    for n, tok in sets:
+        if n not in last:
+            order.append(n)
+        last[n] = tok
+        if n == "listen":
+            listen.append(uncps(tok[1:]))
+    if "listen" in last:
+        last["listen"] = "S" + cps(" ".join(listen))
+    return argv, ("KW", app, callf, [[n, last[n]] for n in order])
+
+
+CLI_DIRECTED = [
+    ["--ident=", "m:app"], ["--ident", "", "m:app"], ["--ident= ", "m:app"], ["--url-scheme=", "m:app"], ["--server-name=", "m:app"],
+    ["--listen=", "m:app"], ["--unix-socket=", "m:app"], ["--port=", "m:app"], ["--threads", "", "m:app"], ["--unix-socket-perms=", "m:app"],
+    ["--host=", "m:app"], ["--trusted-proxy=", "m:app"], ["--trusted-proxy=", "--trusted-proxy-count=2", "m:app"], ["--url-prefix=", "m:app"],
+    ["--unix-socket=", "--port=8081", "m:app"], ["--unix-socket=", "--host=127.0.0.1", "m:app"], ["--unix-socket=", "--listen=127.0.0.1:8081", "m:app"],
+    ["--listen=", "--port=8081", "m:app"], ["--listen=", "--unix-socket=/tmp/w.sock", "m:app"], ["--host=", "--listen=127.0.0.1:8081", "m:app"],
+    ["--port=", "--unix-socket=/tmp/w.sock", "m:app"], ["--sockets=", "--port=1", "m:app"], ["--sockets=", "m:app"],
+    ["--port=1", "--port=2", "--port=3", "m:app"], ["--port=x", "--port=2", "m:app"], ["--port=2", "--port=x", "m:app"],
+    ["--ipv4", "--no-ipv4", "--ipv4", "m:app"], ["--no-ipv4", "--no-ipv6", "m:app"], ["--no-ipv6", "--ipv6", "--no-ipv4", "m:app"],
+    ["--listen=a:1", "--li", "b:2", "--list=c:3", "m:app"], ["--listen=a:1", "--listen=", "--listen=a:1", "m:app"],
+    ["--thr=1", "--threads=2", "--th", "3", "m:app"], ["--trusted-proxy=*", "--trusted-proxy-h=forwarded", "--trusted-proxy-c=2", "m:app"],
+    ["--trusted-proxy", "--trusted-proxy-count=2", "m:app"], ["--trusted-proxy=*", "--trusted-proxy-headers=x-real-ip", "m:app"],
+    ["--no-threads", "m:app"], ["--no-port=5", "m:app"], ["--no-listen", "a:1", "m:app"], ["--no-ident=", "m:app"],
+    ["--expose", "--no-expose", "m:app"], ["--log-s", "--log-u", "--no-log-s", "m:app"], ["--log", "m:app"], ["--no-log", "m:app"],
+    ["--clear", "--no-clear-untrusted-proxy-headers", "m:app"], ["--asyncore-u", "--asyncore-l=2", "m:app"], ["--asyncore", "m:app"],
+    ["--max-request-h=1", "--max-request-b=2", "m:app"], ["--max=1", "m:app"], ["--outbuf-o=1", "--outbuf-h=2", "--outbuf=3", "m:app"],
+    ["--channel-t=1", "--channel-r=2", "--channel=3", "m:app"], ["--unix-socket-p=600", "--unix-socket=/s", "m:app"], ["--unix=/s", "m:app"],
+    ["--url-s=https", "--url-p=/x", "--url=1", "m:app"], ["--i=x", "m:app"], ["--id=x", "--in=5", "--ip", "m:app"], ["--s=x", "m:app"],
+    ["--se=x", "m:app"], ["--ser=x", "--sen=1", "--so=x", "m:app"], ["--t=1", "m:app"], ["--b=1", "--r=2", "--p=3", "--u=4", "m:app"],
+    ["--cl", "m:app"], ["--cle", "--clea=1", "m:app"], ["--co=5", "--c", "m:f"], ["--ca", "--app", "m:f"], ["--app=a", "--app=b", "--ap", "c"],
+    ["--app=", "m:app"], ["--app", "", "--port=1"], ["--help", "--port"], ["--port", "--help"], ["--port=1", "--help", "--bogus"],
+    ["--port=1", "--", "--help"], ["--port=1", "--", "m:app", "x"], ["--", "--", "m:app"], ["--port=1", "-", "m:app"], ["--port=1", "m:app", "--host=h"],
+    ["--host", "--port", "--listen", "m:app"], ["--host=--", "--", "m:app"], ["--port==5", "m:app"], ["--ident==", "m:app"], ["--ident=a=b=c", "m:app"],
+]
+
+
+def group_cli_multi(R):
+    """(B) command lines of 1..8 options (repeats, abbreviations, both value forms, blank values, --no-
+    forms, listen accumulation, exclusive combinations, help/call/app, terminators, malformed words) through
+      (1) the REAL waitress.runner.run with _serve replaced, the shim building Adjustments(**kw) as serve() does,
+      (2) the real Adjustments.parse_args followed by Adjustments(**kw),
+      (3) the extracted model cli_construct,
+      (4) the extracted SPECIFICATION (scan + keyword_form of Spec/AdjustCli.v), whose keyword form is handed to the
+          real Adjustments(**kw_equiv),
+      (5) the keyword form the generator intended.
+    (1) = (2) = (3) = (4); (4)'s keyword form = (5)."""
+    A, tier, rng = R.A, R.ctx.tier, R.ctx.rng
+    import gen_adjust
+    castname = {n: gen_adjust.CASTS.get(f.__name__, "?") for n, f in A.Adjustments._params}
+    T = CliTable(A)
+    stats = R.cli_stats = {}
+    n = 1600 if tier == "quick" else 25000
+    cases = [(argv, None) for argv in CLI_DIRECTED]
+    # every prefix of every option name, alone
+    for full, kind, param in T.entries:
+        for typed, res in T.spellings(full):
+            if isinstance(res, str):
+                argv = ["--" + typed + ("=1" if rng.random() < 0.5 else ""), "m:app"]
+            elif res[1] in ("value", "app"):
+                argv = ["--" + typed + "=1", "m:app"] if rng.random() < 0.5 else ["--" + typed, "1", "m:app"]
+            else:
+                argv = ["--" + typed, "m:app"]
+            cases.append((argv, None))
+            # the resolution itself: specification against the documentation-level table
+
+            def cbr(a, typed=typed, res=res):
+                want = res if isinstance(res, str) else "found " + cps(res[0])
+                if a != want:
+                    R.model_bad.append(("resolve", "--%s: specification resolves to %s, the option table says %s" % (typed, a, want),
+                                        {"kind": "resolve", "typed": typed, "model": a, "observed": want}))
+            R.ask("resolve " + cps(typed), cbr)
+    # per option: --no- on a value option, a value on a flag, --no-no-, the same option twice (last wins), on/off both ways
+    for name, c in castname.items():
+        o = name.replace("_", "-")
+        if c == "CBool":
+            for argv, intent in (([("--%s=1" % o), "m:app"], ("REFUSED", "unexpected-value")), (["--no-%s=" % o, "m:app"], ("REFUSED", "unexpected-value")),
+                                 (["--no-no-" + o, "m:app"], ("REFUSED", "unknown")),
+                                 (["--" + o, "--no-" + o, "m:app"], ("KW", "m:app", False, [[name, "B0"]])),
+                                 (["--no-" + o, "--" + o, "m:app"], ("KW", "m:app", False, [[name, "B1"]])),
+                                 (["--no-" + o, "--" + o, "--no-" + o, "m:app"], ("KW", "m:app", False, [[name, "B0"]]))):
+                cases.append((argv, intent))
+        else:
+            v1, v2 = CLI_GOOD[c][0], CLI_GOOD[c][-1]
+            two = "S" + cps(v1 + " " + v2) if name == "listen" else "S" + cps(v2)
+            two_r = "S" + cps(v2 + " " + v1) if name == "listen" else "S" + cps(v1)
+            for argv, intent in ((["--no-" + o, "m:app"], ("REFUSED", "unknown")), (["--no-%s=%s" % (o, v1), "m:app"], ("REFUSED", "unknown")),
+                                 (["--" + o, "m:app"], ("APP", "missing")),            # m:app is the value
+                                 (["--%s=%s" % (o, v1), "--" + o, v2, "m:app"], ("KW", "m:app", False, [[name, two]])),
+                                 (["--" + o, v2, "--%s=%s" % (o, v1), "m:app"], ("KW", "m:app", False, [[name, two_r]])),
+                                 (["--%s=%s" % (o, v1), "--threads=3", "--%s=%s" % (o, v2), "m:app"],
+                                  ("KW", "m:app", False, [[name, two], ["threads", "S51"]] if name != "threads" else [[name, "S" + cps(v2)]]))):
+                cases.append((argv, intent))
+    for _ in range(n):
+        cases.append(gen_argv(rng, T, castname, stats))
+    sizes = {}
+    for argv, intent in cases:
+        nopt = sum(1 for w in argv if w.startswith("--") and w != "--")
+        sizes[min(nopt, 9)] = sizes.get(min(nopt, 9), 0) + 1
+        run_res, got = real_run(A, argv)
+        cli_res = real_cli(A, argv)
+        parse_res, parse_kw = real_parse(A, argv)
+        R.evaluations += 3
+        R.count("cli-multi", run_res[0] if run_res[0] in ("OK", "HELP") else run_res[1])
+        if run_res[0] == "OK":
+            R.nontrivial.add(("run", repr(argv)))
+        rep = {"argv": list(argv), "failing_input_found": True}
+        if run_res != cli_res:
+            R.violation("run-vs-parse_args", "runner.run(%r) gives %s, Adjustments(**parse_args(argv)) gives %s" % (argv, show(run_res)[:200], show(cli_res)[:200]),
+                        dict(rep, kind="run-vs-parse", expected="what Adjustments(**parse_args(argv)) gives: " + show(cli_res)[:600],
+                             observed="runner.run: %s ; serve() got %r" % (show(run_res)[:600], None if got is None else got["kw"])))
+        if got is not None and parse_kw is not None:
+            want_kw = {k: v for k, v in parse_kw.items() if k not in ("help", "app")}
+            if got["kw"] != want_kw or got["app"] is not parse_kw.get("app") and not (
+                    isinstance(got["app"], AppMarker) and isinstance(parse_kw.get("app"), AppMarker)
+                    and (got["app"].name, got["app"].call) == (parse_kw["app"].name, parse_kw["app"].call)):
+                R.violation("run-serve-kw", "runner.run(%r) handed serve() %r, parse_args gave %r" % (argv, got["kw"], want_kw),
+                            dict(rep, kind="run-serve-kw", expected=repr(want_kw)[:600], observed=repr(got["kw"])[:600]))
+        R.cli_case("cli-multi-model", argv, real=cli_res)
+
+        def cb(a, argv=argv, intent=intent, run_res=run_res, got=got):
+            sp = parse_spec_answer(a)
+            if sp[0] == "ERR":
+                R.model_bad.append(("spec", "spec %r -> %s" % (argv, a[:200]), {"kind": "spec", "argv": list(argv), "model": a[:500]}))
+                return
+            if intent is not None:
+                si = sp if sp[0] != "KW" else ("KW", sp[1], sp[2], sp[4])
+                if si != intent:
+                    R.model_bad.append(("spec-intent", "%r: the specification reads %r, the generator meant %r" % (argv, si, intent),
+                                        {"kind": "spec", "argv": list(argv), "model": repr(si)[:800], "observed": repr(intent)[:800]}))
+            if sp[0] == "REFUSED":
+                want = ("EXN", "GetoptError")
+                kwl = None
+            elif sp[0] == "HELP":
+                want, kwl = ("HELP", None), None
+            elif sp[0] == "APP":
+                want, kwl = ("EXN", "AppResolutionError"), None
+            else:
+                kwl = sp[3]
+                want = real_construct(A, kwl)
+                R.evaluations += 1
+                if got is not None and (got["app"].name, got["app"].call) != (sp[1], sp[2]):
+                    R.violation("run-app", "runner.run(%r) resolves application %r (call=%s), the specification says %r (call=%s)" % (
+                        argv, got["app"].name, got["app"].call, sp[1], sp[2]),
+                        {"kind": "run-app", "argv": list(argv), "expected": "%r call=%s" % (sp[1], sp[2]),
+                         "observed": "%r call=%s" % (got["app"].name, got["app"].call), "failing_input_found": True})
+            if run_res != want:
+                what = ("the keyword form %r gives %s" % (kwl, show(want)[:200])) if kwl is not None else ("the specification says %s (%s)" % (show(want), a[:60]))
+                R.violation("run-vs-keyword", "runner.run(%r) gives %s, %s" % (argv, show(run_res)[:200], what),
+                            {"kind": "run-vs-kw", "argv": list(argv), "kw": None if kwl is None else kw_tokens(kwl),
+                             "expected": show(want)[:800], "observed": show(run_res)[:800], "failing_input_found": True})
+        if R.runner is None and intent is not None:
+            # no extracted specification (the translator refused the source, or a proof input is absent):
+            # the keyword form the generator intended stands in for it
+            if intent[0] == "KW":
+                a = "OK H0 C%s Ais:%s N0 %s" % ("1" if intent[2] else "0", cps(intent[1]), " ".join("%s:%s" % (cps(k), t) for k, t in intent[3]))
+            else:
+                a = {"REFUSED": "REFUSED " + intent[-1], "HELP": "OK H1 C0 Amissing N0", "APP": "OK H0 C0 A%s N0" % intent[-1]}[intent[0]]
+            cb(a.rstrip(), intent=None)
+            continue
+        R.ask(("spec " + " ".join(cps(x) for x in argv)).rstrip(), cb)
+        if len(R.q) > 4000:
+            R.flush()
+    R.flush()
+    stats["options_per_argv"] = {str(k): v for k, v in sorted(sizes.items())}
+    stats["cases"] = len(cases)
+
+
+HEADER_CANDIDATES = ["x-real-ip", "x-forwarded-server", "x-forwarded-scheme", "x-forwarded-ssl", "x-forwarded-prefix", "x-forwarded-path",
+                     "x-forwarded", "x-forwarded-", "forwarded-for", "forwarded-host", "x-client-ip", "via", "host", "x-forwarded-protocol",
+                     "x-forwarded_for", "xforwardedfor", "true-client-ip", "cf-connecting-ip", "x-original-forwarded-for", "x-scheme", "forward"]
+PROPERTY_HEADER_KINDS = ["forwarded", "x-forwarded-host", "x-forwarded-for", "x-forwarded-proto", "x-forwarded-port", "x-forwarded-by"]
+
+
+def group_header_kinds(R):
+    """accepted header kinds against an INDEPENDENT list: the six that docs/arguments.rst names (read here, not taken
+    from the implementation) -- which must also be the six the property names"""
+    A = R.A
+    documented = docs_header_kinds_independent()
+    R.evaluations += 1
+    if sorted(documented) != sorted(PROPERTY_HEADER_KINDS):
+        R.violation("header-kinds-docs", "docs/arguments.rst names the header kinds %s, the property names %s" % (sorted(documented), sorted(PROPERTY_HEADER_KINDS)),
+                    {"kind": "header-docs", "expected": sorted(PROPERTY_HEADER_KINDS), "observed": sorted(documented), "failing_input_found": True})
+    impl = set(A.KNOWN_PROXY_HEADERS)
+    try:
+        from waitress.proxy_headers import PROXY_HEADERS
+        impl |= {h.lower().replace("_", "-") for h in PROXY_HEADERS}
+    except Exception:  # pragma: no cover
+        pass
+    pool = sorted(set(HEADER_CANDIDATES) | impl | set(PROPERTY_HEADER_KINDS) | set(documented))
+    for h in pool:
+        for form in sorted({h, h.upper(), h.title()}):
+            want_ok = form.lower() in PROPERTY_HEADER_KINDS
+            kw = [("trusted_proxy", "*"), ("trusted_proxy_headers", form)]
+            kres = R.kw_case("header-kind", kw)
+            argv = ["--trusted-proxy=*", "--trusted-proxy-headers=" + form, "m:app"]
+            rres, _ = real_run(A, argv)
+            R.evaluations += 1
+            for what, res in (("keyword form", kres), ("runner form", rres)):
+                accepted = res[0] == "OK"
+                if accepted != want_ok or (not accepted and res != ("EXN", "ValueError")):
+                    R.violation("header-kind:%s" % form.lower(),
+                                "trusted_proxy_headers=%r (%s): %s; the documented header kinds are %s" % (
+                                    form, what, ("ACCEPTED, trusted_proxy_headers=%s" % res[1].get("trusted_proxy_headers")) if accepted else show(res),
+                                    ", ".join(PROPERTY_HEADER_KINDS)),
+                                {"kind": "header-kind", "header": form, "kw": kw_tokens(kw), "argv": argv,
+                                 "expected": "accepted" if want_ok else "EXN ValueError", "observed": show(res)[:400], "failing_input_found": True})
+    R.flush()
+
+
+def doc_literal_value(lit):
+    """a documented default as written -> ('none'|'bool'|'list'|'text', python value)"""
+    lit = lit.strip()
+    if lit == "None":
+        return ("none", None)
+    if lit in ("True", "False"):
+        return ("bool", lit == "True")
+    if lit == "[]":
+        return ("list", [])
+    if len(lit) >= 2 and lit[0] == lit[-1] and lit[0] in "'\"":
+        lit = lit[1:-1]
+    return ("text", lit)
+
+
+KF_HELP_SEND_BYTES = "kf_c20_help_send_bytes"
+
+
+def group_doc_defaults(R):
+    """(C) every default that docs/arguments.rst, runner.HELP and docs/runner.rst state, against the attribute of the
+    real Adjustments() built without arguments (a literal other than None/True/False/[] goes through the parameter's
+    cast, as a user would pass it); the generated tables against the same reading; the generated class defaults
+    against the real class attributes"""
+    A = R.A
+    import gen_adjust
+    adj = A.Adjustments()
+    pmap = dict(A.Adjustments._params)
+    es = gen_adjust.rst_entries(os.path.join(vcommon.REPO, "docs", "arguments.rst"), r"([a-z][a-z0-9_]*)")
+    sources = [("docs", "docs/arguments.rst", [(m.group(1), b) for m, b in es]),
+               ("help", "runner.HELP", [(n.replace("-", "_"), b) for n, b in gen_adjust.help_entries()]),
+               ("runner_rst", "docs/runner.rst", [(n.replace("-", "_"), b) for n, b in gen_adjust.runner_rst_entries()])]
+    R.doc_rows = {}
+    for key, what, entries in sources:
+        rows = []
+        for name, body in entries:
+            text = " ".join(l.strip() for l in body if l.strip())
+            for lit in gen_adjust.defaults_in_text(text):
+                if (name, lit) not in rows:
+                    rows.append((name, lit))
+        R.doc_rows[what] = len(rows)
+        toks = []
+        for name, lit in rows:
+            R.evaluations += 1
+            kind, val = doc_literal_value(lit)
+            toks.append("%s:%s" % (cps(name), {"none": "N", "bool": "B1" if val else "B0", "list": "K"}.get(kind) or ("S" + cps(val))))
+            if name not in pmap:
+                R.violation("docs-default-unknown:%s" % name, "%s states a default for %r, which is not an adjustment" % (what, name),
+                            {"kind": "docs-default", "source": what, "name": name, "literal": lit, "expected": "an adjustment", "observed": "none",
+                             "failing_input_found": True})
+                continue
+            actual = getattr(adj, name)
+            try:
+                doc_val = pmap[name](val) if kind == "text" else val
+                ok = canon_setting(name, doc_val) == canon_setting(name, actual)
+            except Exception as e:
+                doc_val, ok = "EXN " + exn_name(e), False
+            if not ok:
+                kf = KF_HELP_SEND_BYTES if (key, name, lit) == ("help", "send_bytes", "18000") else None
+                R.violation("docs-default:%s:%s" % (key, name),
+                            "%s states that %s defaults to %s; Adjustments().%s is %r" % (what, name, lit, name, actual),
+                            {"kind": "docs-default", "source": what, "name": name, "literal": lit, "expected": "%r" % (actual,),
+                             "observed": "documented %s" % lit, "failing_input_found": True}, kf)
+
+        def cb(a, toks=toks, what=what):
+            if a.split(" ") != toks and not (a == "" and not toks):
+                R.model_bad.append(("doc-defaults", "defaults of %s: generated %s, read here %s" % (what, a[:300], " ".join(toks)[:300]),
+                                    {"kind": "table", "table": "doc-defaults " + what, "model": a[:1500], "observed": " ".join(toks)[:1500]}))
+        R.ask("docdefaults " + key, cb)
+    # generated class defaults against the real class attributes
+
+    def cbc(a):
+        got = dict(t.split(":", 1) for t in a.split(" ")) if a else {}
+        for name, _ in A.Adjustments._params:
+            v = getattr(A.Adjustments, name)
+            want = ("N" if v is None else ("B1" if v is True else "B0" if v is False else "I" + dec(int(v)) if isinstance(v, int)
+                    else "S" + cps(str(v)) if isinstance(v, str) else "K" if v == [] else "T" if v == set()
+                    else "HP" if v == ["%s:%s" % (A.Adjustments.host, A.Adjustments.port)] else "?" + repr(v)))
+            if got.get(cps(name)) != want:
+                R.model_bad.append(("class-defaults", "class default of %s: generated %s, imported %s" % (name, got.get(cps(name)), want),
+                                    {"kind": "table", "table": "class-defaults", "model": str(got.get(cps(name))), "observed": want}))
+    R.ask("classdefaults", cbc)
+    for w in ("docs", "help", "rst"):
+        def cbh(a, w=w):
+            got = sorted(uncps(x) for x in a.split(";")) if a else []
+            if got != sorted(docs_header_kinds_independent()) and w == "docs":
+                R.model_bad.append(("doc-headers", "header kinds of arguments.rst: generated %s, read here %s" % (got, sorted(docs_header_kinds_independent())),
+                                    {"kind": "table", "table": "doc-headers", "model": got, "observed": sorted(docs_header_kinds_independent())}))
+        R.ask("dochdrs " + w, cbh)
+    R.flush()
+
+
 def group_unknown(R):
     for name in ["bogus", "Host", "host ", " host", "no_ipv4", "app", "help", "call", "HOST", "listen_", "socket", "_params", "trusted-proxy", ""]:
         for v in ("x", 1, None):
@@ -1200,6 +1726,9 @@ def run_all(ctx, runner):
         group_values(R, set(A.truthy))
         group_cli_shapes(R)
         group_cli_random(R, set(A.truthy))
+        group_cli_multi(R)
+        group_header_kinds(R)
+        group_doc_defaults(R)
         group_middleware(R)
         group_tables(R)
         R.flush()
@@ -1287,5 +1816,63 @@ def replay_one(data):
             r, _ = real_parse(A, data["argv"])
             print("parse_args(%r) -> %s ; the model says %s" % (data["argv"], show(r)[:400], data.get("model")))
             return 0 if show(r)[:2000] != data.get("observed") else 1
+        if kind in ("run-vs-parse", "run-serve-kw"):
+            r, got = real_run(A, data["argv"])
+            c = real_cli(A, data["argv"])
+            _, pk = real_parse(A, data["argv"])
+            want_kw = None if pk is None else {k: v for k, v in pk.items() if k not in ("help", "app")}
+            print("runner.run(%r) -> %s ; serve() got %r\nAdjustments(**parse_args(argv)) -> %s ; parse_args gave %r" % (
+                data["argv"], show(r)[:400], None if got is None else got["kw"], show(c)[:400], want_kw))
+            return 0 if r == c and (got is None or got["kw"] == want_kw) else 1
+        if kind == "run-vs-kw":
+            r, got = real_run(A, data["argv"])
+            if data.get("kw") is None:
+                print("runner.run(%r) -> %s ; expected %s" % (data["argv"], show(r)[:400], data.get("expected")))
+                return 0 if show(r)[:800] == data.get("expected") else 1
+            kw = [(k, dec_token(t)) for k, t in data["kw"]]
+            k = real_construct(A, kw)
+            print("runner.run(%r) -> %s\nkeyword form %r -> %s" % (data["argv"], show(r)[:400], kw, show(k)[:400]))
+            return 0 if r == k else 1
+        if kind == "run-app":
+            r, got = real_run(A, data["argv"])
+            now = None if got is None else "%r call=%s" % (got["app"].name, got["app"].call)
+            print("runner.run(%r) resolves %s ; expected %s" % (data["argv"], now, data.get("expected")))
+            return 0 if now == data.get("expected") else 1
+        if kind == "header-kind":
+            kw = [(k, dec_token(t)) for k, t in data["kw"]]
+            k = real_construct(A, kw)
+            r, _ = real_run(A, data["argv"])
+            def cls(x):
+                return "accepted" if x[0] == "OK" else show(x)
+            print("trusted_proxy_headers=%r: keyword form %s, runner form %s ; expected %s" % (data["header"], cls(k), cls(r), data.get("expected")))
+            return 0 if cls(k) == cls(r) == data.get("expected") else 1
+        if kind == "header-docs":
+            now = sorted(docs_header_kinds_independent())
+            print("docs/arguments.rst names %s ; the property names %s" % (now, data.get("expected")))
+            return 0 if now == data.get("expected") else 1
+        if kind == "docs-default":
+            import gen_adjust
+            name, lit = data["name"], data["literal"]
+            pmap = dict(A.Adjustments._params)
+            if name not in pmap:
+                print("%s is not an adjustment" % name)
+                return 1
+            k2, val = doc_literal_value(lit)
+            actual = getattr(A.Adjustments(), name)
+            try:
+                ok = canon_setting(name, pmap[name](val) if k2 == "text" else val) == canon_setting(name, actual)
+            except Exception:
+                ok = False
+            # is the statement still in the document?
+            src = data.get("source", "")
+            if src == "runner.HELP":
+                entries = [(n.replace("-", "_"), b) for n, b in gen_adjust.help_entries()]
+            elif src == "docs/runner.rst":
+                entries = [(n.replace("-", "_"), b) for n, b in gen_adjust.runner_rst_entries()]
+            else:
+                entries = [(m.group(1), b) for m, b in gen_adjust.rst_entries(os.path.join(vcommon.REPO, "docs", "arguments.rst"), r"([a-z][a-z0-9_]*)")]
+            still = any(n == name and lit in gen_adjust.defaults_in_text(" ".join(l.strip() for l in b if l.strip())) for n, b in entries)
+            print("%s %s: documented default %s ; Adjustments().%s = %r" % (src, "still states" if still else "no longer states", lit, name, actual))
+            return 1 if (still and not ok) else 0
         print("replay kind %r: re-run ./check C20" % kind)
         return 1
